@@ -252,6 +252,42 @@ CHECKS = {
         "additivity). Line shapes (cvoigt/erfcx, lorentzian) are oracles. Cancellation is proved for N = 2, 3 only; the selection "
         "threshold sqrt(D2_max)*dtol is inhomogeneous in the dipole scale (the scaling theorem states 'same selection').",
    design="7/C12", technique="Coq proof (ring; symbolic evaluation of the transcribed pathway generators) + in-Coq differential correspondence in exact rational arithmetic, numerical SO(3) quadrature monitors"),
+ "C13": dict(
+   text="Proved in Coq with no size bound: list-rotation laws of fftshift/ifftshift (ifftshift o fftshift = id for every length; "
+        "fftshift o fftshift = id for even lengths, = rotation by one and != id for every odd length >= 3); over any field of "
+        "characteristic 0 with 2 pi abstract the conjugate-axis maps of TimeAxis/FrequencyAxis are mutually inverse in both "
+        "directions for both axis types and every length the code accepts (start, length, step, type, conjugate start; odd upper-half "
+        "frequency axes are refused), dt (dw/2pi) L = 1; over an abstract ring with a root of unity zeta (zeta^L = 1) the repaired "
+        "DFunction transforms on complete axes equal the direct Fourier sum d sum_n f_n zeta^((n-L/2)(j-L/2)) at every returned point, "
+        "the upper-half transform equals the Fourier sum with the Hermitian extension f(-t) = conj f(t), and FT o iFT / iFT o FT return "
+        "the original values for every complex data vector; the pinned code computes the same for even lengths and is refuted at odd "
+        "complete lengths (L = 3 witness over Q(omega); repaired by a fix: commit). Validated only: numpy.fft.fft/ifft compute the "
+        "defining sums (oracle hypotheses, monitored against direct summation on every recorded call).",
+   note=TB + "All C13 theorems closed under the global context. The round trips assume orthogonality of the powers of zeta (stated "
+        "hypothesis; true of e^(2 pi i/L), not machine checked). Tie: axis cases (lengths 1..60, negative steps, both directions, "
+        "refusals) compared inside Coq over Q; transform cases for every length 1..40, both types, three chains, Gaussian-integer data, "
+        "with the run's own fft/ifft calls recorded and replayed as the model's oracle so that shifts, Hermitian fill, cut and scale are "
+        "reproduced through exact rationals (1e-12), for both model variants; for lengths 1, 2, 4 the whole model runs with its own "
+        "defining sums. Not covered: the window argument; one-point complete axes (the code raises); iFT o FT on upper-half time axes "
+        "(a factor 2 in get_inverse_Fourier_transform; the property claims FT o iFT only).",
+   design="7/C13", technique="Coq proof (list rotations, sums over an abstract ring with a root of unity, field arithmetic for the axes) + in-Coq correspondence with recorded oracle calls"),
+ "C11": dict(
+   text="Proved in Coq: for every Nt >= 3 position p of one_transition_spectrum holds dd dt (half-sided trapezoid Fourier sum of a(t) + "
+        "c.c.) at integer frequency p + Nt//2 - Nt + 2 of hfft's own 2Nt-2 point grid (index arithmetic of hfft, fftshift, flipud, cut); "
+        "the aggregate spectrum is point by point the sum of the transition lines; the pinned returned axis is MISALIGNED with the data "
+        "at every position (data frequency = rwa + (axis - rwa) Nt/(Nt-1) + 2 grid steps) - recorded as a known finding, not repaired - "
+        "and an axis re-created on the transform grid carries every data frequency; dipole strengths scale with c^2, are invariant "
+        "under every orthogonal 3x3 rotation and under relabelling, and sum to sum_n |d_n|^2 for an orthogonal eigenvector matrix; the "
+        "sum over all hfft points is n 2 Re a(0) independent of couplings and line shapes; S (S^-1 X S) S^-1 = X (inputs handed back "
+        "unchanged in exact arithmetic). Validated only: hfft computes its defining sum (oracle, 1e-10); g(t) from the code's own c2g and "
+        "eigenvectors from eigh; the sum rule restricted to the returned window (2e-3); scaling of a molecule's spectrum (2e-4).",
+   note=TB + "All C11 theorems closed under the global context. Tie: molecules, dimers, trimers (Nt 100..301 even and odd, dt 1-2 fs, "
+        "couplings explicit or from geometry, a quarter with a supplied Redfield tensor), each re-run scaled, rotated and relabelled; the "
+        "model fed the recorded hfft outputs, eigenvectors and dipoles reproduces .data within 1e-10 and the returned axis is compared "
+        "with the pinned and repaired axis models (1e-12); independent Fourier integrals on both grids. from_dynamics and the mock "
+        "calculator are not modelled; with a supplied tensor only purity, symmetry and axis clauses are checked. The calculator also sets "
+        "system._has_system_bath_coupling (an attribute, not H, D or R; noted).",
+   design="7/C11", technique="Coq proof (index model over an abstract ring with a root of unity, field-level grid comparison) + in-Coq correspondence with recorded hfft outputs"),
 }
 NOT_YET = {}
 def main():
